@@ -1619,11 +1619,8 @@ hop_case(long idx, int ttl0, bool sraw, int tran, vf_rng *r)
 			uint32_t vhop = vf_below(r, (uint32_t) h.ttl + 1);
 			uint64_t vseq = h.rxseq++;
 			size_t   vlen = VF_BODY_MIN + vf_below(r, 64);
-			if (!hop_send_frame(&h, vhop, vseq, vlen)) {
-				if (fd_is_closed(h.fd) || true) {
-					// write failed: the peer is gone
-				}
-			}
+			// (if this write fails the socket has hung up: reported below)
+			(void) hop_send_frame(&h, vhop, vseq, vlen);
 			hrecv o = hop_recv(&h, 10000);
 			if (o.rc == 1) {
 				bool closed = vf_fd_wait_eof(h.fd, 50) != 0;
@@ -1723,7 +1720,11 @@ hop_case(long idx, int ttl0, bool sraw, int tran, vf_rng *r)
 			    h.sname, vf_tran_names[tran], ttl0, nf, h.conns, fr[nf - 1].cls);
 		}
 	} else {
+		// one verdict per worker is enough; every further frame against
+		// a broken library would cost another 10 s deadline
 		vf_stat("cases_aborted", 1);
+		int code = vf_finish();
+		_exit(code != 0 ? code : 1);
 	}
 }
 
